@@ -150,3 +150,53 @@ Proof.
   rewrite app_nth2 by lia. replace (length q + k - length q)%nat with k by lia.
   rewrite (nth_map_lt (fun y => 1 - y) q 0 0 k H). ring.
 Qed.
+
+(* ---------------------------------------------------------------- Gibbs chain: every value of every row is a state *)
+Definition row_valid (b : bn) (vars : list var) (st : list nat) : Prop :=
+  Forall2 (fun v s => (s < cardf b v)%nat) vars st.
+
+Lemma Forall2_set_nth b : forall vars st j d, row_valid b vars st ->
+  (d < cardf b (nth j vars 0%nat))%nat -> row_valid b vars (set_nth j d st).
+Proof.
+  unfold row_valid. intros vars st j d H. revert j. induction H as [|v s vars st Hv H IH]; intros j Hd.
+  - destruct j; constructor.
+  - destruct j as [|j]; simpl in *; constructor; auto.
+Qed.
+
+Lemma take_draws_one card p o ds o' : take_draws card 1 p o = Ok (ds, o') -> (hd 0%nat ds < card)%nat.
+Proof.
+  unfold take_draws. destruct (length (ostream o) <? 1)%nat eqn:L; [discriminate|].
+  destruct (ostream o) as [|x t]; [simpl in L; discriminate|]. simpl.
+  destruct (x <? card)%nat eqn:E; [|discriminate]. intros H. inversion H; subst. simpl. apply Nat.ltb_lt. exact E.
+Qed.
+
+Lemma gibbs_sweep_valid b fs vars : forall js st o st' o',
+  gibbs_sweep b fs vars js st o = Ok (st', o') -> row_valid b vars st -> row_valid b vars st'.
+Proof.
+  induction js as [|j js IH]; intros st o st' o' H Hv; simpl in H.
+  - inversion H; subst. exact Hv.
+  - destruct (kernel_row b (factors_of fs (nth j vars 0%nat)) vars (nth j vars 0%nat) (remove_nth j st)); [|discriminate].
+    destruct (adjusted l) as [p|e]; [|discriminate].
+    destruct (take_draws (cardf b (nth j vars 0%nat)) 1 p o) as [[ds o1]|e] eqn:T; [|discriminate].
+    eapply IH; [exact H|]. apply Forall2_set_nth; [exact Hv|]. eapply take_draws_one. exact T.
+Qed.
+
+Lemma gibbs_chain_valid b fs vars : forall n st o rows o',
+  gibbs_chain b fs vars n st o = Ok (rows, o') -> row_valid b vars st -> Forall (row_valid b vars) rows.
+Proof.
+  induction n as [|n IH]; intros st o rows o' H Hv; simpl in H.
+  - inversion H. constructor.
+  - destruct (gibbs_sweep b fs vars (seq 0 (length vars)) st o) as [[st1 o1]|e] eqn:S; [|discriminate].
+    destruct (gibbs_chain b fs vars n st1 o1) as [[r o2]|e] eqn:C; [|discriminate]. inversion H; subst.
+    assert (Hv1 : row_valid b vars st1) by (eapply gibbs_sweep_valid; eassumption).
+    constructor; [exact Hv1|]. eapply IH; eassumption.
+Qed.
+
+Lemma gibbs_sample_valid b fs vars size start o rows o' :
+  gibbs_sample b fs vars size start o = Ok (rows, o') -> row_valid b vars start ->
+  Forall (row_valid b vars) rows /\ hd_error rows = Some start.
+Proof.
+  unfold gibbs_sample. intros H Hv.
+  destruct (gibbs_chain b fs vars (size - 1) start o) as [[r o1]|e] eqn:C; [|discriminate]. inversion H; subst.
+  split; [|reflexivity]. constructor; [exact Hv|]. eapply gibbs_chain_valid; eassumption.
+Qed.
